@@ -28,6 +28,7 @@ func NewJapi(filepath string, oo ...core.Option) (JApi, error) {
 func readPanicFree(filename string) (f *fs.File, err error) {
 	defer func() {
 		if r := recover(); r != nil {
+			verifRecovered(r)
 			err = fmt.Errorf("%s", r)
 		}
 	}()
